@@ -8,8 +8,7 @@ conversions `byte(x)`, `uint16(x)`, `uint32(x)` are `x % 2^k` (Euclidean, so
 negative values wrap as in Go). `checksum` is modelled with its `uint32`
 accumulator (additions reduced mod 2^32, with the end-around carry the code applies) and its two folds.
 Not modelled: slice aliasing (`RawBody.Marshal` returns the caller's slice),
-`InterfaceInfo` marshalling with names longer than 63 bytes or IPv4-mapped
-addresses, non-Linux field orders of `ipv4.Header`, control messages.
+IPv4-mapped addresses in `InterfaceInfo`, non-Linux field orders of `ipv4.Header`, control messages.
 -/
 namespace NetVerif.Model.Icmp
 
@@ -179,7 +178,7 @@ def Ext.bytes (proto : Nat) : Ext → List Nat
         (if proto = protocolICMP then be16 (addrFamilyIPv4 : Nat) ++ [0, 0] ++ last4 a.ip
          else be16 (addrFamilyIPv6 : Nat) ++ [0, 0] ++ a.ip) else []) ++
       (if attrs / 2 % 2 = 1 then
-        nameLen i.name :: (i.name ++ zeros (nameLen i.name - 1 - i.name.length)) else []) ++
+        nameLen i.name :: (i.name.take (nameLen i.name - 1) ++ zeros (nameLen i.name - 1 - i.name.length)) else []) ++
       (if attrs % 2 = 1 then be32 i.mtu else [])
   | .ident _ typ name index afi addr =>
     let l := identLen typ name addr
